@@ -421,6 +421,78 @@ msg     .stringz "in: "
 """
 
 
+def cli_tty_stdin(ctx, violations):
+    """The real binary with its standard input a TERMINAL (the debugger's interactive line editor, crossterm) and its
+    standard output redirected to a file, as in `lace debug p.asm > out`: what the PROGRAM printed - the file - must be what
+    a plain `lace run` prints; prompt, echo and line breaks of the editor belong on the terminal (stderr)."""
+    import os, pty, subprocess, time, select
+    import clicommon
+    exe = ctx.cli()
+    d = clicommon.fresh_dir(ctx, "clitty")
+    os.makedirs(os.path.join(d, "cache"), exist_ok=True)
+    progs = {"ab.asm": "ld r0 a\nout\nld r0 b\nout\nhalt\na .fill x41\nb .fill x42\n",
+             "hello.asm": "lea r0 m\nputs\nld r0 c\nout\nhalt\nm .stringz \"hello\"\nc .fill x42\n"}
+    for k, v in progs.items():
+        open(os.path.join(d, k), "w").write(v)
+    scripts = [("ab.asm", ["step", "registers", "continue", "quit"]), ("hello.asm", ["", "step into 2", "print r0", "", "quit"]),
+               ("ab.asm", ["break add x3002", "continue", "break list", "continue", "quit"]), ("hello.asm", ["quit"])]
+    env = dict(os.environ, HOME=d, XDG_CACHE_HOME=os.path.join(d, "cache"), TERM="xterm", NO_COLOR="1", RUST_BACKTRACE="0")
+    n = bad = 0
+    for si, (prog, lines) in enumerate(scripts):
+        for slow in (1.0, 4.0):
+            m, sl = pty.openpty()
+            outp = os.path.join(d, "out%d.txt" % si)
+            out = open(outp, "wb")
+            p = subprocess.Popen([exe, "debug", prog], cwd=d, stdin=sl, stdout=out, stderr=sl, env=env, start_new_session=True)
+            os.close(sl)
+            def drain(q, lim):
+                t0 = last = time.time()
+                while time.time() - t0 < lim:
+                    r, _, _ = select.select([m], [], [], 0.05)
+                    if r:
+                        try:
+                            data = os.read(m, 65536)
+                        except OSError:
+                            return
+                        if not data:
+                            return
+                        last = time.time()
+                    elif time.time() - last >= q:
+                        return
+            drain(0.6 * slow, 6 * slow)
+            for line in lines:
+                for chh in line:
+                    try:
+                        os.write(m, chh.encode())
+                    except OSError:
+                        break
+                    drain(0.03 * slow, 0.3 * slow)
+                try:
+                    os.write(m, b"\r")
+                except OSError:
+                    pass
+                drain(0.5 * slow, 4 * slow)
+            try:
+                rc = p.wait(timeout=6)
+            except subprocess.TimeoutExpired:
+                p.kill(); p.wait(); rc = None
+            out.close(); os.close(m)
+            got = open(outp, "rb").read()
+            plain = subprocess.run([exe, "run", prog], cwd=d, stdin=subprocess.DEVNULL, stdout=subprocess.PIPE, stderr=subprocess.PIPE, env=env)
+            ok = rc == plain.returncode and clicommon.program_output(got) == clicommon.program_output(plain.stdout)
+            if ok or rc is None and slow < 4:
+                if ok:
+                    break
+        n += 1
+        if not ok:
+            bad += 1
+            if bad <= 3:
+                violations.append({"kind": "terminal-stdin-session", "why": "with the debugger's commands typed on a terminal and stdout redirected, the program's output differs from the plain run",
+                                   "program": progs[prog], "typed_lines": lines, "exit": rc, "stdout_file": got.decode("utf-8", "replace")[-300:],
+                                   "plain_exit": plain.returncode, "plain_stdout": plain.stdout.decode("utf-8", "replace")[-300:]})
+    return {"sessions": n, "mismatches": bad, "rule": "real `lace debug FILE > out` with the commands typed on a pseudo-terminal: the redirected program output and the exit status equal a plain `lace run`'s"}
+
+
 ECHO3 = """        jsr f
         call g
         getc
